@@ -44,6 +44,25 @@ def readRegsList : List CExpr → List String
   | a :: as => readRegs a ++ readRegsList as
 end
 
+/-! ### immediate letters read by an expression -/
+mutual
+def readImms : CExpr → List String
+  | .imm l _ => [l]
+  | .cast _ e => readImms e
+  | .un _ e => readImms e
+  | .not e => readImms e
+  | .bin _ a b => readImms a ++ readImms b
+  | .shift _ a b => readImms a ++ readImms b
+  | .cmp _ a b => readImms a ++ readImms b
+  | .log _ a b => readImms a ++ readImms b
+  | .tern c a b => readImms c ++ (readImms a ++ readImms b)
+  | .macro _ args _ _ => readImmsList args
+  | _ => []
+def readImmsList : List CExpr → List String
+  | [] => []
+  | a :: as => readImms a ++ readImmsList as
+end
+
 /-! ### expressions evaluated by a statement (the target only for compound operators) -/
 mutual
 def exprsOf : CStmt → List CExpr
@@ -86,11 +105,13 @@ def Ctx.ok (c : Ctx) : Bool :=
 
 def assignOps : List String := ["=", "+=", "-=", "*=", "&=", "|=", "^=", "<<=", ">>="]
 
-/-- an assignment target: a declared local (same width as declared) or a register with the documented
-    operand width that is not a source operand; width ≠ 1 -/
+/-- an assignment target: a declared local (same width as declared), a register with the documented
+    operand width that is not a source operand (width ≠ 1), or an immediate letter the lowering has registered
+    (`riV = riV & ~3`: 32 bit, signedness as the letter declares; the target is the local its `imm_assign` sets) -/
 def lhsOK (c : Ctx) : CExpr → Bool
   | .var n t => (match lookupS n c.types with | some t' => t'.width == t.width | none => false) && t.width != 1
   | .reg n k t => regWidthOfOpvar (opvarOf n k) == some t.width && !c.srcs.contains (opvarOf n k) && t.width != 1
+  | .imm l _ => c.imms.contains l
   | _ => false
 
 /-- the target `lhs1` is not read by any of the expressions `es` -/
@@ -98,6 +119,7 @@ def targetIndep (lhs1 : CExpr) (es : List CExpr) : Bool :=
   match lhs1 with
   | .var n _ => es.all (fun e => !(readVars e).contains n)
   | .reg n k _ => es.all (fun e => !(readRegs e).contains (opvarOf n k))
+  | .imm l _ => es.all (fun e => !(readImms e).contains l)
   | _ => false
 
 /-- reading the target after it was assigned yields the assigned value (not so for source operands,
@@ -105,6 +127,7 @@ def targetIndep (lhs1 : CExpr) (es : List CExpr) : Bool :=
 def rereadable : CExpr → Bool
   | .var _ _ => true
   | .reg _ k _ => k != .src && k != .pc
+  | .imm _ _ => true
   | _ => false
 
 mutual
